@@ -1278,6 +1278,13 @@ class Interp:
                 raise Raised('KeyError')
             if name == 'copy':
                 return dict(recv)
+            if name == 'clear' and not args and not kwargs:
+                recv.clear()
+                return None
+            if name == 'popitem' and not args and not kwargs:
+                if not recv:
+                    raise Raised('KeyError', 'popitem of an empty dict')
+                return tuple(recv.popitem())
         if isinstance(recv, (set, frozenset)):
             if name in ('union', 'intersection', 'difference', 'symmetric_difference'):
                 op = {'union': ast.BitOr(), 'intersection': ast.BitAnd(), 'difference': ast.Sub(), 'symmetric_difference': ast.BitXor()}[name]
@@ -1332,6 +1339,25 @@ class Interp:
                     raise Raised('IndexError')
             if name == 'copy':
                 return list(recv)
+            if name == 'clear' and not args and not kwargs:
+                del recv[:]
+                return None
+            if name == 'reverse' and not args and not kwargs:
+                recv.reverse()
+                return None
+            if name == 'index' and len(args) == 1:
+                for i_, x_ in enumerate(recv):
+                    if self.equal(x_, args[0]):
+                        return i_
+                raise Raised('ValueError', 'list.index: not in list')
+            if name == 'count' and len(args) == 1:
+                return sum(1 for x_ in recv if self.equal(x_, args[0]))
+            if name == 'remove' and len(args) == 1:
+                for i_, x_ in enumerate(recv):
+                    if self.equal(x_, args[0]):
+                        del recv[i_]
+                        return None
+                raise Raised('ValueError', 'list.remove: not in list')
             if name == 'insert' and len(args) == 2:
                 recv.insert(args[0], args[1])
                 return None
